@@ -433,7 +433,7 @@ func endpointAuthTypes(w *World) []mechType {
 				if callee == nil || !w.inModule(callee) {
 					continue
 				}
-				if strings.HasPrefix(callee.Name(), "decodeStrategy") {
+				if callee.Blocks != nil && len(findCalls(callee, func(cc *ssa.CallCommon) bool { n := callName(cc); return strings.Contains(n, "mapstructure") && strings.HasSuffix(n, ".NewDecoder") })) > 0 {
 					for _, a := range c.Common().Args {
 						if t := elemStruct(stripConv(a).Type()); t != nil {
 							if _, isPtr := stripConv(a).Type().Underlying().(*types.Pointer); isPtr {
